@@ -1,5 +1,4 @@
-import OpcuaModel.Model.CfgAlias
-import OpcuaModel.Gen.ConfigFacts
+import OpcuaModel.Model.CfgAliasFacts
 /-
   C23 — client options affect only the client they are applied to.
 
@@ -20,19 +19,6 @@ import OpcuaModel.Gen.ConfigFacts
 -/
 namespace Opcua.Props.C23
 open Opcua Opcua.CfgAlias
-
-/-- the alias facts of the current source -/
-def facts : Facts := ⟨Gen.Config.shared⟩
-
-/-- the initial content of every cell: the pristine defaults (a package-level
-    object holds what `newConfig()` shows below its pointer before any option ran) -/
-def pristine : Cell → String
-  | (.own _, p) => (Gen.Config.defaults.lookup p).getD "<absent>"
-  | (.glob g, rel) =>
-    match Gen.Config.shared.find? (fun e => e.2 == g) with
-    | some (q, _) => (Gen.Config.defaults.lookup (q ++ rel)).getD "<absent>"
-    | none => "<absent>"
-  | (.user _ _, _) => "<absent>"
 
 /-- ISOLATION under the dynamic guard, for any alias facts and every program
     (any number of clients, any options, any values, caller-supplied objects) -/
